@@ -21,4 +21,4 @@ Print Assumptions C11_exact_kept.
 Example C11_example :
   exists r, runner_new (mkParams (NTMax 8) (CSExact 3)) TCollect (Some 100) 16 = Some r /\
             r_chunk r = RExact 3 /\ next_chunk_size r 5 (Some 40) = Some (Some 3).
-Proof. eexists. vm_compute. repeat split. Qed.
+Proof. exists (mkRunner (Some 100) 8 (RExact 3)). vm_compute. repeat split. Qed.
